@@ -1,6 +1,6 @@
 (* C02 — Step execution: order, outcome-to-status mapping, stop after the first non-pass.
    Statements only. *)
-From BV Require Import Base Status Rollup Runner RunnerSteps RunnerQuiet RunnerEq.
+From BV Require Import Base Status Rollup Runner RunnerSteps RunnerQuiet RunnerEq RunnerOrder.
 From BVGen Require Import StatusTable.
 
 (* the documented mapping: what the step function did -> status *)
@@ -103,4 +103,25 @@ Example loop_runs :
     steps_loop cfg (mkState false [[]]) false false 7 (mkLoop true false false)
                [mkStep KPass 1; mkStep KFail 2; mkStep KUndefined 3; mkStep KPass 4] in
   sts = [passed; failed; undefined; skipped] /\ call_ids ev = [1; 2].
+Proof. vm_compute. split; reflexivity. Qed.
+
+(* the whole run: the step-function calls of any run are, in run order, one block per scenario /
+   outline row of the program (feature_specs: feature background ++ rule background ++ own
+   steps), each block made on behalf of that scenario and being a subsequence of its step
+   list - a prefix of it with the default continue_after_failed_step = false *)
+Theorem the_calls_of_a_run_follow_the_document :
+  forall cfg fs rs verdict ab evs,
+    run_model cfg fs = (rs, verdict, ab, evs) ->
+    calls_match (c_cont cfg) (flat_map feature_specs fs) (step_calls evs).
+Proof. exact run_calls_follow_the_document. Qed.
+Print Assumptions the_calls_of_a_run_follow_the_document.
+
+Example inherited_backgrounds_come_first :
+  let cfg := mkCfgData false false true TTrue [] [] [] 99 false in
+  let f := mkFeature 1 [] (Some [mkStep KPass 1])
+             [FRule (mkRule 2 [] (Some [mkStep KPass 2]) [SScen (mkScen 3 [] [mkStep KPass 4; mkStep KFail 5; mkStep KPass 6])]);
+              FItem (SScen (mkScen 7 [] [mkStep KPass 8]))] in
+  feature_specs f = [(3, [mkStep KPass 1; mkStep KPass 2; mkStep KPass 4; mkStep KFail 5; mkStep KPass 6]);
+                     (7, [mkStep KPass 1; mkStep KPass 8])] /\
+  step_calls (snd (run_case (cfg, [f]))) = [(3, 1); (3, 2); (3, 4); (3, 5); (7, 1); (7, 8)].
 Proof. vm_compute. split; reflexivity. Qed.
